@@ -323,10 +323,16 @@ def main(prop, spec):
     names = theorems_of(prop)
     discharged = 0
     assumptions_seen = {}
+    run_ok = ok
     if not ok:
         tail = "\n".join(out.strip().split("\n")[-25:])
         broken.append(("coq-build", "make %s failed:\n%s" % (" ".join(targets), tail)))
-    else:
+        # a broken proof obligation must not hide the correspondence: the model itself (Cxx/Run.vo and what it
+        # needs) usually still builds (make of that target alone), and then the shards are evaluated
+        with Lock("coq"):
+            rc_run, _ = run(["make", "-j8", "%s/Run.vo" % prop], cwd=COQ, timeout=3000)
+        run_ok = rc_run == 0
+    if ok:
         res, aout = print_assumptions(prop, names, workdir)
         for n in names:
             if n not in res:
@@ -382,7 +388,7 @@ def main(prop, spec):
     # 5 model on the same cases
     disagreements = []
     shard_times = []
-    if report is not None and ok:
+    if report is not None and run_ok:
         paths = [os.path.join(workdir, s["name"] + ".v") for s in report["shards"]]
         with cf.ThreadPoolExecutor(max_workers=int(os.environ.get("VERIF_JOBS", "16"))) as ex:
             results = list(ex.map(run_shard, paths))
